@@ -102,7 +102,8 @@ def tucker_als(  # noqa: PLR0912, PLR0913, PLR0915
             raise ValueError("Dimorder must be a permutation of range(tensor.ndims)")
 
     if isinstance(init, list):
-        Uinit = init
+        # The guess handed back is independent of the caller's list
+        Uinit = [None if factor is None else factor.copy() for factor in init]
         if len(init) != N:
             raise ValueError(
                 f"Init needs to be of length tensor.ndim (which was {N}) but only got "
